@@ -1255,21 +1255,17 @@ class RTCSctpTransport(AsyncIOEventEmitter):
         # handle gap blocks
         loss = False
         if chunk.gaps:
-            seen = set()
-            highest_seen_tsn = chunk.cumulative_tsn
-
             # only chunks which are in flight can be acknowledged, whatever
             # range the gap blocks claim to cover
-            if self._sent_queue:
-                max_pos = (
-                    self._sent_queue[-1].tsn - chunk.cumulative_tsn
-                ) % SCTP_TSN_MODULO
-            else:
-                max_pos = 0
-            for gap in chunk.gaps:
-                for pos in range(gap[0], min(gap[1], max_pos) + 1):
-                    highest_seen_tsn = (chunk.cumulative_tsn + pos) % SCTP_TSN_MODULO
-                    seen.add(highest_seen_tsn)
+            seen = set()
+            highest_seen_tsn = chunk.cumulative_tsn
+            for schunk in self._sent_queue:
+                pos = (schunk.tsn - chunk.cumulative_tsn) % SCTP_TSN_MODULO
+                for gap in chunk.gaps:
+                    if gap[0] <= pos <= gap[1]:
+                        seen.add(schunk.tsn)
+                        highest_seen_tsn = schunk.tsn
+                        break
 
             # determined Highest TSN Newly Acked (HTNA)
             highest_newly_acked = chunk.cumulative_tsn
